@@ -16,7 +16,7 @@ Has(f) == f \in DOMAIN Ev
 Fld(f, d) == IF Has(f) THEN Ev[f] ELSE d
 
 Dummy == [id |-> "-", nf |-> 0, off |-> <<>>, span |-> <<>>, pre |-> <<>>, prf |-> <<>>, prio |-> <<>>, lm |-> "none", loff |-> 0,
-          size |-> 1, cs |-> 1, cfg |-> 0, thr |-> 0, f0 |-> <<>>, rd |-> <<>>, np |-> 0, nw |-> 0, nb |-> 0, tmo |-> 1000]
+          size |-> 1, cs |-> 1, cfg |-> 0, thr |-> 0, f0 |-> <<>>, rd |-> <<>>, ro |-> 2, np |-> 0, nw |-> 0, nb |-> 0, tmo |-> 1000]
 Slack == 3000      \* ms a wait may exceed the configured timeout by (scheduling noise), far below "blocks forever"
 
 MonInit ==
